@@ -191,6 +191,54 @@ def flat_rules(rep, mod):
         raise AnalysisBroken('flat_map lookups instantiated: %d' % seen)
 
 
+def order_rule(rep, mod):
+    """R-VECORDER: operator< is the lexicographic order of the two element sequences and nothing else: its result is the
+    value of one element-wise comparison over [begin(), end()) of *this and [begin(), end()) of the argument, in that
+    order.  A shortcut on the sizes ("shorter is smaller") disagrees with std::vector for {0,0} < {1}."""
+    fs = [f for f in class_methods(mod, 'igris::vector<int') if base_name(f) == 'operator<']
+    if len(fs) != 1:
+        raise AnalysisBroken('igris::vector<int>::operator< not instantiated (witness out of date)')
+    f = fs[0]
+    where = '%s:%d' % (f.file, f.line)
+    lex = [c for c in f.calls() if c.callee and 'lexicographical_compare' in c.callee]
+    if len(lex) != 1:
+        raise AnalysisBroken('vector::operator<: expected one std::lexicographical_compare call, found %d (form not recognised)' % len(lex))
+    L = lex[0]
+    srcs, work, seen = [], [r.ops[0] for r in f.returns() if r.ops], set()
+    while work:
+        v = work.pop()
+        i = f.inst_of(v)
+        if i is None:
+            srcs.append(v)
+            continue
+        if i.id in seen:
+            continue
+        seen.add(i.id)
+        if i.op in ('phi', 'zext', 'trunc', 'sext', 'freeze'):
+            work.extend(i.ops)
+        elif i.op == 'select':
+            srcs.append(i.ops[0])
+            work.extend(i.ops[1:])
+        else:
+            srcs.append(v)
+    ok = bool(srcs) and all(v.k == 'inst' and v.id == L.id for v in srcs)
+    rep.inst('R-VECORDER', f.qualname, 'result-is-the-lexicographic-comparison-alone', ok, where,
+             None if ok else 'the value returned is not on every path the result of the element-wise comparison (e.g. a shortcut '
+             'on the sizes): vectors of different length are then ordered differently from std::vector, {0,0} < {1} must hold')
+
+    def who(v):
+        """(member called, on parameter) for an iterator argument"""
+        i = f.inst_of(v)
+        if i is None or i.op not in ('call', 'invoke') or not i.ops or i.ops[0].k != 'arg':
+            return None
+        g = mod.fn(i.callee)
+        return (base_name(g) if g is not None else None, i.ops[0].argno)
+    got = [who(a) for a in L.ops[:4]]
+    want = [('begin', 0), ('end', 0), ('begin', 1), ('end', 1)]
+    rep.inst('R-VECORDER', f.qualname, 'compares-this-range-with-argument-range', got == want, L.where(),
+             None if got == want else 'the comparison runs over %r, expected begin()/end() of *this then of the argument' % (got,))
+
+
 def run(rep, repo, tier):
     rep.explanation = (
         'Abstract interpretation of every instantiated member of igris::vector<int> and igris::vector<VTr> (probe '
@@ -223,6 +271,8 @@ def run(rep, repo, tier):
     rep.units.append('witness/w_flat.cpp -> igris/container/flat_map.h, flat_set.h')
     tempref_rule(rep, modf, ['igris::flat_map<', 'igris::flat_set<'])
     tempref_rule(rep, mod, ['igris::vector<'])
+    order_rule(rep, mod)
+    rep.floor('R-VECORDER', 2)
     flat_rules(rep, modf)
     rep.floor('R-TEMPREF', 10)
     rep.floor('R-FLATSEARCH', 8)
@@ -232,3 +282,5 @@ def run(rep, repo, tier):
     rep.floor('R-VEC:post', 30)
     import c02_life
     c02_life.run_life(rep, repo, tier)
+    import c14_ident
+    c14_ident.run_ext_vec(rep, repo, tier)
